@@ -48,7 +48,8 @@ Print Assumptions C02_sorted_release.
 Theorem C02_last_is_eof : forall (cfg : config) (src : list char) d0,
   t_type (last (b_toks (lr_buffer (lex cfg src))) d0) = T_EOF.
 Proof.
-  intros cfg src d0. destruct (lex_buffer_errors cfg src) as [-> _]. apply into_detached_last_eof.
+  intros cfg src d0. unfold lex. destruct (split_bom src) as [[bb bc] text].
+  destruct (lex_text_buffer_errors cfg bb bc text) as [-> _]. apply into_detached_last_eof.
 Qed.
 Print Assumptions C02_last_is_eof.
 
